@@ -49,7 +49,7 @@ def model (line : String) : String :=
   | some c =>
     let r := runCase c.buf c.batches c.ds
     if r.1.mailbox.isEmpty then
-      " ".intercalate (r.2.1.map showObs) ++ s!";st={(r.1.stash.getD []).length}"
+      " ".intercalate (r.2.1.map showObs) ++ s!";st={(r.1.stash.getD []).length};alias=0"
     else "model-out-of-fuel"
 
 def parseCode : Char → Option Code
@@ -78,7 +78,11 @@ def judge (line : String) : String :=
   | none => if o = "bad-case" then "ok" else "bad harness accepted an unparsable case"
   | some c =>
     match o.splitOn ";st=" with
-    | [evs, st] =>
+    | [evs, rest] =>
+      let (st, al) := match rest.splitOn ";alias=" with
+        | [a, b] => (a, b)
+        | _ => (rest, "missing")
+      if al ≠ "0" then "bad one ReceiveContext object is in two places at once (main mailbox / stash mailbox / pool): " ++ al else
       match (words evs).mapM parseEvent, st.toNat? with
       | some es, some st =>
         match mkObs es c.ds with
